@@ -39,6 +39,9 @@ class NumpyFuncs:
             return v.payload
         if isinstance(v, str):
             return {"int64": "int", "int": "int", "float": "real", "float64": "real", "bool": "bool"}.get(v)
+        from .values import FuncRef
+        if isinstance(v, FuncRef) and v.kind == "builtin":
+            return {"int": "int", "float": "real", "bool": "bool"}.get(v.target)
         return None
 
     def as_arr(self, v, kind=None):
@@ -142,7 +145,8 @@ class NumpyFuncs:
         v, n = args[0], args[1]
         if isinstance(v, Opaque) and v.tag == "float" and v.payload != v.payload:      # np.nan
             self.oblige(st, num_cmp(">=", n, 0), "lib", "np.repeat: non-negative count", node)
-            return Arr((n,), lambda i: Fraction(0), "real", own=True, nanmask=lambda i: True)
+            # a float array that only ever holds nan or integers is modelled with Int elements + nan mask (avoids IsInt reasoning)
+            return Arr((n,), lambda i: 0, "int", own=True, nanmask=lambda i: True)
         if isinstance(v, Arr):
             if v.rank == 1 and isinstance(v.shape[0], int) and v.shape[0] == 1:
                 e, k = v.get(0), v.kind
@@ -293,6 +297,14 @@ class NumpyFuncs:
         cmpop = ">=" if is_max else "<="
         st.assume(mk_and(r >= 0, num_cmp("<", r, n)))
         ar = a.get(r)
+        if is_concrete(n) and n <= 8:
+            # small concrete length: ground instances instead of quantified facts
+            strict0 = ">" if is_max else "<"
+            for qi in range(n):
+                st.assume(num_cmp(cmpop, ar, a.get(qi)))
+                st.assume(mk_implies(num_cmp("<", qi, r), num_cmp(strict0, ar, a.get(qi))))
+            self.note_assumption("numpy: argmax/argmin return the first extremal position of a non-empty array")
+            return r
         st.assume(forall([q], mk_implies(mk_and(q >= 0, num_cmp("<", q, n)), num_cmp(cmpop, ar, a.get(q)))))
         strict = ">" if is_max else "<"
         st.assume(forall([q], mk_implies(mk_and(q >= 0, q < r), num_cmp(strict, ar, a.get(q)))))
